@@ -32,10 +32,10 @@ class Outcome:
         return f"{self.kind}({type(self.exc).__name__}: {str(self.exc)[:120]})"
 
 
-def attempt(fn, *args):
+def attempt(fn, *args, **kwargs):
     """ok / load_error (pure LoadError tree) / impure_group / exc"""
     try:
-        return Outcome("ok", fn(*args))
+        return Outcome("ok", fn(*args, **kwargs))
     except LoadError as e:
         return Outcome("load_error" if is_pure_load_error(e) else "impure", exc=e)
     except RecursionError as e:
